@@ -166,6 +166,9 @@ func c10Run(t *testing.T, e *env, idx int, steps []c10Step) {
 	hung := true
 	synctest.Test(t, func(t *testing.T) {
 		conn, ep := newClient(false, 0)
+		// every third sequence starts with capability negotiation switched on: its lines are outgoing lines like
+		// any others (the server of these sequences never answers them)
+		conn.Config().EnableCapabilityNegotiation = idx%3 == 2
 		created = time.Now()
 		if err := conn.Connect(); err != nil {
 			e.R.Inconcl("connect: " + err.Error())
@@ -173,7 +176,7 @@ func c10Run(t *testing.T, e *env, idx int, steps []c10Step) {
 			return
 		}
 		mc := ep.Last()
-		// registration lines are part of the sequence (2 lines charged at connect time)
+		// registration lines are part of the sequence (2 or 3 lines charged at connect time)
 		synctest.Wait()
 		for waited := 0; mc.NumLines() < 2 && waited < 1000; waited++ {
 			time.Sleep(time.Second)
